@@ -35,14 +35,20 @@ impl Run {
 
     // Copy all current state into the file.
     pub(crate) fn save(&mut self) -> Result<(), MonorailError> {
+        // Write to a temporary file and rename it over the target, so that
+        // an interruption can never leave a truncated or partially written
+        // file behind; every other command depends on this file parsing.
+        let tmp_path = self.path.with_extension("json.tmp");
         let mut file = fs::OpenOptions::new()
             .write(true)
             .truncate(true)
             .create(true)
-            .open(&self.path)?;
+            .open(&tmp_path)?;
 
         let data = serde_json::to_vec(self)?;
         file.write_all(&data)?;
+        drop(file);
+        fs::rename(&tmp_path, &self.path)?;
         Ok(())
     }
 }
